@@ -259,6 +259,15 @@ func init() {
 		}
 		return []Value{st.freshVal("containsrune", tBool)}
 	})
+	// bytes.Buffer / strings.Builder used as a local accumulator: the writes only change the
+	// buffer itself (its content is not modelled: String() is havoc)
+	for _, n := range []string{"bytes.Buffer.WriteByte", "bytes.Buffer.WriteRune", "bytes.Buffer.WriteString", "bytes.Buffer.Write", "bytes.Buffer.String", "bytes.Buffer.Len",
+		"strings.Builder.WriteByte", "strings.Builder.WriteRune", "strings.Builder.WriteString", "strings.Builder.String", "strings.Builder.Len"} {
+		reg(n, true, func(v *FnV, st *State, call *ast.CallExpr, recv *Value, args []Value) []Value {
+			v.c.trusted["bytes.Buffer / strings.Builder writes change only the buffer (content not modelled)"] = true
+			return v.havocResults(st, call, "buf")
+		})
+	}
 	reg("strings.LastIndex", true, func(v *FnV, st *State, call *ast.CallExpr, recv *Value, args []Value) []Value {
 		s, t := args[0].S, args[1].S
 		if lit, ok := v.litContent(t); ok && len(lit) == 1 {
